@@ -242,8 +242,36 @@ class FracMonitor:
 
     def on_state(self, rig, state):
         self.n = state.n
+        if getattr(self, "_durable", None) is not None:
+            # the previous process died after the restart file of its last
+            # step had been written: that step counts
+            self._count_step(self.n, self._durable)
+            self._durable = None
+        self._in_treat = False
+        # a (re)started process: what counts as "already written" is what
+        # the data file on disk holds now
+        self.rows_written = {}
+        try:
+            for r in parse_data_file(state.data_file):
+                self.rows_written[r["pn"]] = \
+                    self.rows_written.get(r["pn"], 0) + 1
+        except Exception:
+            pass
+
+    def _count_step(self, n, locks):
+        if self.idle_steps is None:
+            self.idle_steps = np.zeros(n, dtype=int)
+        self.idle_steps += (np.asarray(locks) == 0).astype(int)
+
+    def after_write_toml(self, rig, state, out):
+        # the step is durable once its restart file is written; if the
+        # process dies right after, the step still counts
+        if getattr(self, "_in_treat", False):
+            self._durable = np.asarray(state._locks).copy()
 
     def before_treat(self, rig, state, md_items):
+        self._in_treat = True
+        self._durable = None
         self.before = {pn: np.array(d["frac"], dtype=np.longdouble)
                        for pn, d in state.traj_data.items()}
         self.archived = {}
@@ -376,9 +404,9 @@ class FracMonitor:
                             f"ensemble column {j} gained {float(gain[j])!r} "
                             f"instead of {want}", locks=locks.tolist(),
                             gain=[float(g) for g in gain])
-        if self.idle_steps is None:
-            self.idle_steps = np.zeros(n, dtype=int)
-        self.idle_steps += (locks == 0).astype(int)
+        self._count_step(n, locks)
+        self._durable = None
+        self._in_treat = False
         if md_items.get("status") == "ACC":
             for pn in md_items["pnum_old"]:
                 if self.rows_written.get(pn, 0) != 1:
